@@ -40,7 +40,10 @@ def signature(rep):
 
 
 def signature_matches(known, rep, sig):
+    """a listed finding names the failing call site: harness function + catalogue item (+ optionally the kind of
+    failure, exception type and innermost stone frame); fields left out of the listing are not compared"""
     ks = known.get('signature') or {}
-    return (ks.get('function') == sig[0] and ks.get('kind') == sig[1]
-            and ks.get('exc_type') == sig[2] and ks.get('frame') == sig[3]
-            and (ks.get('item') in (None, rep.get('item'))))
+    got = {'function': sig[0], 'kind': sig[1], 'exc_type': sig[2], 'frame': sig[3], 'item': rep.get('item')}
+    if not ks.get('function') or not ks.get('item'):
+        return False
+    return all(got[k] == v for k, v in ks.items() if v is not None)
